@@ -6,7 +6,7 @@ import importlib
 
 
 def load_contracts():
-    for m in ["der", "util", "ellipticcurve", "ecdsa_", "keys"]:
+    for m in ["der", "util", "ellipticcurve", "ecdsa_", "keys", "rfc6979"]:
         importlib.import_module("contracts." + m)
     import spec.der
 
@@ -26,8 +26,7 @@ def verify_functions(quals, z3_ms=10000, cvc5_s=0, verbose=True):
             paths, limits = 0, ["CRASH %r" % e]
         info[q] = (paths, limits, len(ex.obls) - n0)
     t1 = time.time()
-    axioms = sym.base_axioms()
-    res = solve.discharge(ex.obls, axioms, z3_ms=z3_ms, cvc5_s=cvc5_s)
+    res = solve.discharge(ex.obls, z3_ms=z3_ms, cvc5_s=cvc5_s)
     t2 = time.time()
     agg = collections.OrderedDict()
     for o, r in zip(ex.obls, res):
